@@ -1,8 +1,8 @@
 SPECIFICATION Spec
 CONSTANTS
-  Gor = {"g1", "g2", "g3"}
-  Eps = {"E", "F"}
-  Svcs = {"xe", "e", "ef", "f", "t"}
+  Gor = {"g1", "g2"}
+  Eps = {"E"}
+  Svcs = {"e", "xe"}
   Adv <- AdvAll
   MaxReq = 1
   MaxLoss = 0
@@ -11,7 +11,7 @@ CONSTANTS
   Dev_NilChannelWhenAllSkipped = FALSE
   Dev_AuthFailureLeaksConnection = FALSE
   Dev_DeadClientStaysInPool = FALSE
-  Dev_PoolKeyedByAdvertised = FALSE
+  Dev_PoolKeyedByAdvertised = TRUE
   Dev_CloserBeforeInsert = FALSE
-INVARIANTS TypeOK ProcessAlive NoBadUnlock MutexOK RequestOutcome ReturnedIsOpen AtMostOneConnPerEndpoint ExtraConnectionsClosed PoolHoldsLiveClients AllGetTheSharedClient NoDeadlock
+INVARIANTS TypeOK AtMostOneConnPerEndpoint
 CHECK_DEADLOCK FALSE
